@@ -4452,7 +4452,9 @@ public:
      * `<parent_group_path>_<child_group_name>`. Optional `_<n>` part is added
      * to disambiguate names that otherwise would be the same. This parameter
      * represents the total number of group entries (even if they are spread
-     * across multiple enclosing group entries).
+     * across multiple enclosing group entries). For a group nested in another
+     * group the parameter type is `std::size_t` since the total can exceed
+     * `NumInGroupType`.
      * - if there exists a `<data>` member on any level within the message,
      * there will be additional `std::size_t total_data_size` parameter at the
      * end of parameter list, representing the total payload size from all
